@@ -1,6 +1,7 @@
 # C30 - a smart server never waits for bytes beyond the current request: what the decoder asks for next never reaches past the end
 # of the message (length-prefixed bodies, protocol v1/v2), and is positive while the message is incomplete.
 include("_lpd_model.py")
+include("_p3_model.py")
 LP = "LengthPrefixedBodyDecoder"
 
 
@@ -40,4 +41,7 @@ lemma("a_buffer_without_newline_is_still_inside_the_length_prefix", [("b", BYTES
       lambda b: Len(b) <= Len(Pre()),
       note="the hypothesis bl <= Len(Pre) of the lemma above follows from the invariant in the expecting-length state")
 
-undecided("the pipe medium's read loop (_serve_one_request_unguarded) and the v3 / chunked decoders: not under contract in this build")
+# ---- protocol v3: the decoder asks for exactly what completes the current part and for nothing once 'e' has arrived
+include("_p3_targets.py")
+
+undecided("the pipe medium's read loop (_serve_one_request_unguarded) and the chunked body decoder: not under contract in this build")
